@@ -46,7 +46,7 @@ def main():
             open(os.path.join(repo, f), "w").write(src); continue
         suite = "skipped"
         if not skip_suite:
-            rc, out = sh(["cargo", "test", "--offline", "--target-dir", os.path.join(WORK, "t_repo")], cwd=repo)
+            rc, out = sh(["cargo", "test", "--offline", "--lib", "--tests", "--target-dir", os.path.join(WORK, "t_repo")], cwd=repo)
             suite = "passes" if rc == 0 else "KILLED-BY-SUITE"
         caught = {}
         for variant, pargs in (("release", ["--release"]), ("checked", ["--profile", "checked"])):
